@@ -624,6 +624,12 @@ class Analyzer:
             return [(n['v'] == '1', st)]
         # a boolean variable / member / call: an unknown that keeps its value along the path
         key = self.flag_key(f, nid)
+        if key is not None and key.startswith('v:'):
+            cur = st.env.get(key[2:])
+            if isinstance(cur, Lin) and cur.is_const:
+                return [(cur.k != 0, st)]        # a boolean local whose value was computed on this path
+            if isinstance(cur, Lin):
+                return self.cmp_fork('!=', cur, Lin.const(0), st, nid)     # a 0/1 symbol (shared with callees)
         if key is not None:
             if key in st.flags:
                 return [(st.flags[key], st)]
@@ -791,6 +797,7 @@ class Analyzer:
             outs.append((UNK, s))
         res = []
         for v, s in outs:
+            s.callee_final = {p['d']: s.env.get(p['d'], UNK) for p in callee.params}
             env = dict(saved_env)
             for k, x in s.env.items():
                 if isinstance(k, str) and k.startswith('this.'):
